@@ -27,6 +27,8 @@ def main():
             r = sh('cd {} && PYTHONPATH={}/src timeout 300 /venv/bin/python {}/demo.py'.format(wt, wt, seed)); res['demo_with_change'] = r.returncode
             r = sh('cd /repo && PYTHONPATH=/repo/src timeout 300 /venv/bin/python {}/demo.py'.format(seed)); res['demo_without_change'] = r.returncode
         props = [pid] if not allp else ['C%02d' % i for i in range(1, 21)]
+        if '--props' in sys.argv:
+            props = sys.argv[sys.argv.index('--props') + 1].split(',')
         res['checks'] = {}
         for p in props:
             t = time.time()
